@@ -14,7 +14,7 @@ explicit parameter of the generated Lean function, so that the theorems can
 be stated for every curve and instantiated at the shipped constants (and at
 toy curves by the correspondence check).
 """
-import ast, hashlib, json, os, sys
+import ast, hashlib, json, os, re, sys
 
 REPO = os.environ.get("VERIF_REPO", "/repo")
 SRC = os.path.join(REPO, "src", "spake2")
@@ -1086,6 +1086,553 @@ def gen_consts():
     return "\n".join(out), hs
 
 
+# ---------------------------------------------------------------------------------------
+# protocol glue of spake2.py: transcripts, parameter fingerprint, state dictionary, side checks
+# ---------------------------------------------------------------------------------------
+
+PROTO_HEADER = """-- GENERATED by tools/py2lean.py from src/spake2/spake2.py -- do not edit.
+-- Shape of the protocol glue: the two transcript functions, the pieces hashed by `hash_params`, the
+-- (key, value) layout of `_serialize_to_dict` and the side checks of `_extract_message`.
+-- `Spake2Verif/Proofs/ProtoShapeTie.lean` proves that the hand-written model is exactly this.
+import Spake2Model.Model.Bytes
+import Spake2Model.Model.Sha256
+import Spake2Model.Model.Util
+import Spake2Model.Gen.Consts
+set_option linter.unusedVariables false
+namespace Spake2Model.Gen.Proto
+"""
+
+LEAN_RESERVED = {
+    "Sha", "Consts", "List", "sorted2", "raise", "R", "Bytes", "Except", "Err", "PyExc", "Spake2Model", "Gen", "Proto",
+    "selfSide", "arb_empty", "scalar_enc", "M", "N", "S", "self",
+    "at", "fun", "from", "end", "let", "in", "if", "then", "else", "do", "match", "with", "def", "theorem", "have", "show", "by",
+    "open", "namespace", "section", "variable", "where", "instance", "structure", "class", "deriving", "import", "return",
+    "for", "Type", "Prop", "Sort", "true", "false", "mut", "unless", "try", "catch", "finally", "nomatch", "nofun", "calc",
+    "suffices", "obtain", "using", "extends", "abbrev", "inductive", "example", "axiom", "universe", "private", "protected",
+    "partial", "unsafe", "noncomputable", "mutual", "macro", "syntax", "notation", "infix", "infixl", "infixr", "prefix",
+    "postfix", "attribute", "export", "set_option", "local", "scoped", "this", "forall", "exists", "opaque", "elab", "rec",
+}
+SPAKE_ERRS = ["OnlyCallStartOnce", "OnlyCallFinishOnce", "OffSides", "SerializedTooEarly", "WrongSideSerialized",
+              "WrongGroupError", "ReflectionThwarted"]
+PY_ERRS = ["ValueError", "AssertionError", "TypeError", "AttributeError", "KeyError", "IndexError", "ZeroDivisionError"]
+SIDE_CONSTS = {"SideA": "Consts.sideA", "SideB": "Consts.sideB", "SideSymmetric": "Consts.sideS"}
+
+
+def is_doc(s):
+    return isinstance(s, ast.Expr) and isinstance(s.value, ast.Constant) and isinstance(s.value.value, str)
+
+
+class ProtoMod:
+    """facts about the module spake2.py that the statement translators rely on"""
+
+    def __init__(self, mod, fname):
+        self.mod, self.fname = mod, fname
+        self.bindings = module_binding_counts(mod)
+        if any(isinstance(n, ast.ImportFrom) and any(a.name == "*" for a in n.names) for n in ast.walk(mod)):
+            raise Untranslatable("%s: star import" % fname)
+        self.classes, self.fns, self.std = {}, {}, {}
+        for n in mod.body:
+            if isinstance(n, ast.ClassDef):
+                self.classes[n.name] = n
+            elif isinstance(n, ast.FunctionDef):
+                self.fns[n.name] = n
+            elif isinstance(n, ast.ImportFrom) and n.level == 0:
+                for a in n.names:
+                    if a.asname in (None, a.name):
+                        self.std[a.name] = n.module
+
+    def once(self, name):
+        return self.bindings.get(name, 0) == 1
+
+    def is_std(self, name, module):
+        """`name` is bound exactly once at module level, by `from <module> import <name>`"""
+        return self.once(name) and self.std.get(name) == module
+
+    def side_const(self, name):
+        if name in SIDE_CONSTS and self.once(name):
+            for n in self.mod.body:
+                if (isinstance(n, ast.Assign) and len(n.targets) == 1 and isinstance(n.targets[0], ast.Name)
+                        and n.targets[0].id == name and isinstance(n.value, ast.Constant) and isinstance(n.value.value, bytes)):
+                    return SIDE_CONSTS[name]
+        return None
+
+    def mro(self, cname):
+        out = []
+        while True:
+            c = self.classes.get(cname)
+            if c is None or not self.once(cname):
+                raise Untranslatable("%s: class %s not found (or bound more than once)" % (self.fname, cname))
+            if c.keywords or c.decorator_list:
+                die(self.fname, c, "class %s has a metaclass / decorator" % cname)
+            out.append(c)
+            if not c.bases:
+                return out
+            if len(c.bases) != 1 or not isinstance(c.bases[0], ast.Name):
+                die(self.fname, c, "class %s: unsupported bases" % cname)
+            cname = c.bases[0].id
+            if len(out) > 8:
+                die(self.fname, c, "class hierarchy too deep")
+
+    def member(self, cname, attr):
+        """the class-body statement that binds `attr` for instances of `cname` (method resolution order)"""
+        for c in self.mro(cname):
+            hits = []
+            for n in c.body:
+                if isinstance(n, (ast.FunctionDef, ast.AsyncFunctionDef, ast.ClassDef)) and n.name == attr:
+                    hits.append(n)
+                elif isinstance(n, (ast.Assign, ast.AugAssign, ast.AnnAssign)):
+                    ts = n.targets if isinstance(n, ast.Assign) else [n.target]
+                    if any(isinstance(x, ast.Name) and x.id == attr for t in ts for x in ast.walk(t)):
+                        hits.append(n)
+                elif not isinstance(n, (ast.FunctionDef, ast.Expr, ast.Pass)):
+                    if any(isinstance(x, ast.Name) and x.id == attr and isinstance(x.ctx, ast.Store) for x in ast.walk(n)):
+                        hits.append(n)
+            if len(hits) > 1:
+                die(self.fname, hits[1], "%s.%s is bound more than once" % (c.name, attr))
+            if hits:
+                return c, hits[0]
+        raise Untranslatable("%s: %s.%s not found" % (self.fname, cname, attr))
+
+    def method(self, cnames, name, nparams):
+        """the one plain method `name(self, <nparams> positional parameters)` that all classes `cnames` use"""
+        found = [self.member(c, name) for c in cnames]
+        c0, fn = found[0]
+        if any(f is not fn for _, f in found):
+            die(self.fname, fn, "%s resolves to different definitions for %s" % (name, ", ".join(cnames)))
+        a = getattr(fn, "args", None)
+        if (not isinstance(fn, ast.FunctionDef) or fn.decorator_list or a.vararg or a.kwarg or a.kwonlyargs or a.defaults
+                or getattr(a, "posonlyargs", []) or len(a.args) != nparams + 1 or a.args[0].arg != "self"):
+            die(self.fname, fn, "%s.%s is not a plain method with %d parameter(s)" % (c0.name, name, nparams))
+        return c0, fn
+
+    def class_side(self, cname):
+        c, n = self.member(cname, "side")
+        if not (isinstance(n, ast.Assign) and len(n.targets) == 1 and isinstance(n.targets[0], ast.Name)
+                and isinstance(n.value, ast.Name) and self.side_const(n.value.id)):
+            die(self.fname, n, "%s.side is not one of the side constants" % cname)
+        return self.side_const(n.value.id)
+
+    def inline(self, call, st):
+        """`helper(args)` for a module-level helper `def helper(p, ...): return <expr>`: <expr> with the arguments
+        substituted (None when `call` is not such a call)"""
+        if not (isinstance(call, ast.Call) and isinstance(call.func, ast.Name)):
+            return None
+        f = call.func.id
+        fn = self.fns.get(f)
+        if fn is None or f in st.locals:
+            return None
+        body = [x for x in fn.body if not is_doc(x)]
+        a = fn.args
+        params = [x.arg for x in a.args]
+        if (not self.once(f) or fn.decorator_list or a.vararg or a.kwarg or a.kwonlyargs or a.defaults
+                or getattr(a, "posonlyargs", []) or call.keywords or len(call.args) != len(params)
+                or any(isinstance(x, ast.Starred) for x in call.args)
+                or len(body) != 1 or not isinstance(body[0], ast.Return) or body[0].value is None):
+            die(st.where, call, "call of %s: not a one-expression helper called positionally" % f)
+        expr = body[0].value
+        for x in ast.walk(expr):
+            if isinstance(x, (ast.Lambda, ast.ListComp, ast.SetComp, ast.DictComp, ast.GeneratorExp, ast.NamedExpr,
+                              ast.Await, ast.Yield, ast.YieldFrom)):
+                die(st.where, call, "helper %s: unsupported expression" % f)
+        used = [x.id for x in ast.walk(expr) if isinstance(x, ast.Name)]
+        if any(used.count(p) < 1 for p in params) or len(set(params)) != len(params):
+            die(st.where, call, "helper %s: a parameter is not used" % f)
+        if any(u in st.locals or u == "self" for u in used if u not in params):
+            die(st.where, call, "helper %s: a global it reads is shadowed by a local of the caller" % f)
+        st.depth += 1
+        if st.depth > 6:
+            die(st.where, call, "helper calls nested too deeply")
+        amap = dict(zip(params, call.args))
+
+        class Sub(ast.NodeTransformer):
+            def visit_Name(self, node):
+                return amap[node.id] if node.id in amap else node
+        import copy
+        return ast.copy_location(Sub().visit(copy.deepcopy(expr)), call)
+
+
+class PSt:
+    def __init__(self, pm, where, mode):
+        self.pm, self.where, self.mode = pm, where, mode   # mode: 'pure' | 'R' | 'hash'
+        self.locals = {}      # python local -> 'bytes' | 'list' | 'group'
+        self.atom = None      # symbolic atoms (self.side, g.arbitrary_element(b"").to_bytes(), ...)
+        self.effects = []
+        self.depth = 0
+        self.budget = 400
+
+    def fork(self):
+        c = PSt(self.pm, self.where, self.mode)
+        c.locals, c.atom, c.effects, c.depth = dict(self.locals), self.atom, self.effects, self.depth
+        return c
+
+
+def pname(n, st, node=None):
+    if not re.match(r"^[A-Za-z_][A-Za-z0-9_]*$", n) or n in LEAN_RESERVED or n.startswith("__"):
+        die(st.where, node, "local name %s cannot be used in the generated Lean" % n)
+    return n
+
+
+def bytes_lit(b):
+    return "([%s] : Bytes)" % ", ".join(str(x) for x in b)
+
+
+def small_index(e):
+    return isinstance(e, ast.Constant) and type(e.value) is int and 0 <= e.value < 1000
+
+
+def bexpr(e, st):
+    """a bytes-valued expression"""
+    st.budget -= 1
+    if st.budget < 0:
+        die(st.where, e, "expression too large")
+    if st.atom is not None:
+        a = st.atom(e, st)
+        if a is not None:
+            return a
+    if isinstance(e, ast.Name):
+        if st.locals.get(e.id) == "bytes":
+            return pname(e.id, st, e)
+        if e.id not in st.locals and st.pm.side_const(e.id):
+            return st.pm.side_const(e.id)
+        die(st.where, e, "name %s is not a bytes local or a side constant" % e.id)
+    if isinstance(e, ast.Constant) and isinstance(e.value, bytes):
+        return bytes_lit(e.value)
+    if isinstance(e, ast.BinOp) and isinstance(e.op, ast.Add):
+        l = bexpr(e.left, st)
+        return "(%s ++ %s)" % (l, bexpr(e.right, st))
+    if isinstance(e, ast.Subscript) and isinstance(e.slice, ast.Slice):
+        sl = e.slice
+        if sl.step is not None or not all(x is None or small_index(x) for x in (sl.lower, sl.upper)):
+            die(st.where, e, "slice with non-literal or negative bounds / step")
+        v = bexpr(e.value, st)
+        lo = sl.lower.value if sl.lower is not None else 0
+        if sl.upper is not None:
+            v = "(List.take %d %s)" % (sl.upper.value, v)
+        if lo:
+            v = "(List.drop %d %s)" % (lo, v)
+        return v
+    if isinstance(e, ast.Call):
+        f = e.func
+        if (isinstance(f, ast.Attribute) and f.attr == "digest" and not e.args and not e.keywords
+                and isinstance(f.value, ast.Call) and isinstance(f.value.func, ast.Name) and f.value.func.id == "sha256"
+                and "sha256" not in st.locals and st.pm.is_std("sha256", "hashlib")
+                and len(f.value.args) == 1 and not f.value.keywords and not isinstance(f.value.args[0], ast.Starred)):
+            return "(Sha.sha256 %s)" % bexpr(f.value.args[0], st)
+        if (isinstance(f, ast.Attribute) and f.attr == "join" and isinstance(f.value, ast.Constant) and f.value.value == b""
+                and len(e.args) == 1 and not e.keywords):
+            return "(List.flatten %s)" % lexpr(e.args[0], st)
+        inl = st.pm.inline(e, st)
+        if inl is not None:
+            r = bexpr(inl, st)
+            st.depth -= 1
+            return r
+    die(st.where, e, "bytes expression `%s`" % ast.unparse(e)[:60])
+
+
+def lexpr(e, st):
+    """a list (or tuple) of bytes"""
+    if isinstance(e, (ast.List, ast.Tuple)):
+        if any(isinstance(x, ast.Starred) for x in e.elts):
+            die(st.where, e, "starred element")
+        return "[" + ", ".join(bexpr(x, st) for x in e.elts) + "]"
+    if isinstance(e, ast.Name) and st.locals.get(e.id) == "list":
+        return pname(e.id, st, e)
+    die(st.where, e, "list-of-bytes expression `%s`" % ast.unparse(e)[:60])
+
+
+def cexpr(e, st):
+    """a condition (a Lean Prop, decidable): comparisons of bytes, membership in a literal tuple, and/or/not"""
+    if isinstance(e, ast.Compare) and len(e.ops) == 1:
+        op, r = e.ops[0], e.comparators[0]
+        if isinstance(op, (ast.Eq, ast.NotEq)):
+            l = bexpr(e.left, st)
+            return "(%s %s %s)" % (l, "=" if isinstance(op, ast.Eq) else "≠", bexpr(r, st))
+        if isinstance(op, (ast.In, ast.NotIn)) and isinstance(r, (ast.Tuple, ast.List)) and r.elts \
+                and not any(isinstance(x, ast.Starred) for x in r.elts):
+            l = bexpr(e.left, st)
+            alts = " ∨ ".join("%s = %s" % (l, bexpr(x, st)) for x in r.elts)
+            return "(%s)" % alts if isinstance(op, ast.In) else "(¬ (%s))" % alts
+    if isinstance(e, ast.BoolOp):
+        j = " ∧ " if isinstance(e.op, ast.And) else " ∨ "
+        return "(" + j.join(cexpr(v, st) for v in e.values) + ")"
+    if isinstance(e, ast.UnaryOp) and isinstance(e.op, ast.Not):
+        return "(¬ %s)" % cexpr(e.operand, st)
+    die(st.where, e, "condition `%s`" % ast.unparse(e)[:60])
+
+
+def terminates(ss):
+    if not ss:
+        return False
+    s = ss[-1]
+    if isinstance(s, (ast.Return, ast.Raise)):
+        return True
+    return isinstance(s, ast.If) and bool(s.orelse) and terminates(s.body) and terminates(s.orelse)
+
+
+def raise_target(s, st):
+    """`raise Cls` / `raise Cls("literal", ...)` -> the model's error"""
+    exc = s.exc
+    if isinstance(exc, ast.Call) and not exc.keywords and all(
+            isinstance(a, ast.Constant) and isinstance(a.value, str) for a in exc.args):
+        exc = exc.func
+    if s.cause is not None or not isinstance(exc, ast.Name) or exc.id in st.locals:
+        die(st.where, s, "raise of something other than `Cls` / `Cls(\"literal\")`")
+    if exc.id in SPAKE_ERRS and st.pm.once(exc.id) and exc.id in st.pm.classes:
+        return ".error .%s" % exc.id
+    if exc.id in PY_ERRS and st.pm.bindings.get(exc.id, 0) == 0:
+        return "raise .%s" % exc.id
+    die(st.where, s, "raise of unknown exception class %s" % exc.id)
+
+
+def pblock(ss, st, ind, ret):
+    """statements -> Lean lines (continuation style: what follows an `if` is copied into the arms that fall through).
+    `ret(value_node, st)` renders the returned value."""
+    pad = " " * ind
+    lines = []
+    for idx, s in enumerate(ss):
+        rest = ss[idx + 1:]
+        st.budget -= 1
+        if st.budget < 0:
+            die(st.where, s, "function too large")
+        if is_doc(s) or isinstance(s, ast.Pass):
+            continue
+        if isinstance(s, ast.Assign):
+            if len(s.targets) != 1:
+                die(st.where, s, "multiple assignment targets")
+            t, v = s.targets[0], s.value
+            if isinstance(t, ast.Name):
+                if st.mode == "hash" and ast.unparse(v) == "self.params.group":
+                    st.locals[t.id] = "group"
+                    pname(t.id, st, s)
+                    continue
+                if isinstance(v, (ast.List, ast.Tuple)):
+                    rhs, ty = lexpr(v, st), "list"
+                else:
+                    rhs, ty = bexpr(v, st), "bytes"
+                lines.append("%slet %s := %s" % (pad, pname(t.id, st, s), rhs))
+                st.locals[t.id] = ty
+                continue
+            if (isinstance(t, ast.Tuple) and len(t.elts) == 2 and all(isinstance(x, ast.Name) for x in t.elts)
+                    and t.elts[0].id != t.elts[1].id
+                    and isinstance(v, ast.Call) and isinstance(v.func, ast.Name) and v.func.id == "sorted"
+                    and "sorted" not in st.locals and st.pm.bindings.get("sorted", 0) == 0
+                    and len(v.args) == 1 and not v.keywords and isinstance(v.args[0], (ast.List, ast.Tuple))
+                    and len(v.args[0].elts) == 2 and not any(isinstance(x, ast.Starred) for x in v.args[0].elts)):
+                a = bexpr(v.args[0].elts[0], st)
+                b = bexpr(v.args[0].elts[1], st)
+                lines.append("%slet (%s, %s) := sorted2 %s %s" % (pad, pname(t.elts[0].id, st, s), pname(t.elts[1].id, st, s), a, b))
+                st.locals[t.elts[0].id] = st.locals[t.elts[1].id] = "bytes"
+                continue
+            die(st.where, s, "assignment `%s`" % ast.unparse(s)[:60])
+        if (isinstance(s, ast.Expr) and isinstance(s.value, ast.Call) and isinstance(s.value.func, ast.Attribute)
+                and s.value.func.attr == "append" and isinstance(s.value.func.value, ast.Name)
+                and st.locals.get(s.value.func.value.id) == "list" and len(s.value.args) == 1 and not s.value.keywords
+                and not isinstance(s.value.args[0], ast.Starred)):
+            n = pname(s.value.func.value.id, st, s)
+            lines.append("%slet %s := (%s ++ [%s])" % (pad, n, n, bexpr(s.value.args[0], st)))
+            continue
+        if isinstance(s, ast.Return):
+            if s.value is None:
+                die(st.where, s, "return without a value")
+            lines.append(pad + ret(s.value, st))
+            return lines
+        if st.mode == "R" and isinstance(s, ast.Raise):
+            lines.append(pad + raise_target(s, st))
+            return lines
+        if st.mode == "R" and isinstance(s, ast.Assert):
+            if s.msg is not None and not isinstance(s.msg, ast.Constant):
+                die(st.where, s, "assert with a computed message")
+            lines.append("%sif %s then" % (pad, cexpr(s.test, st)))
+            lines += pblock(rest, st.fork(), ind + 2, ret)
+            lines.append("%selse raise .AssertionError" % pad)
+            return lines
+        if st.mode == "R" and isinstance(s, ast.If):
+            c = cexpr(s.test, st)
+            arm1 = s.body + ([] if terminates(s.body) else rest)
+            arm2 = s.orelse + ([] if terminates(s.orelse) else rest)
+            lines.append("%sif %s then" % (pad, c))
+            lines += pblock(arm1, st.fork(), ind + 2, ret)
+            lines.append("%selse" % pad)
+            lines += pblock(arm2, st.fork(), ind + 2, ret)
+            return lines
+        die(st.where, s, "statement `%s`" % ast.unparse(s).split("\n")[0][:60])
+    die(st.where, ss[-1] if ss else None, "control reaches the end of the function without return / raise")
+
+
+def plain_function(pm, name, nparams):
+    fn = pm.fns.get(name)
+    if fn is None or not pm.once(name):
+        raise Untranslatable("%s: function %s not found (or bound more than once)" % (pm.fname, name))
+    a = fn.args
+    if (fn.decorator_list or a.vararg or a.kwarg or a.kwonlyargs or a.defaults or getattr(a, "posonlyargs", [])
+            or len(a.args) != nparams or len({x.arg for x in a.args}) != nparams):
+        die(pm.fname, fn, "%s is not a plain function of %d parameters" % (name, nparams))
+    return fn
+
+
+def is_self_attr(e, attr):
+    return isinstance(e, ast.Attribute) and e.attr == attr and isinstance(e.value, ast.Name) and e.value.id == "self"
+
+
+def is_group(e, st):
+    """`self.params.group` or a local bound to it"""
+    if isinstance(e, ast.Name):
+        return st.locals.get(e.id) == "group"
+    return isinstance(e, ast.Attribute) and e.attr == "group" and is_self_attr(e.value, "params")
+
+
+def is_empty_bytes(e):
+    return isinstance(e, ast.Constant) and e.value == b""
+
+
+def plain_call(e, nargs):
+    return isinstance(e, ast.Call) and not e.keywords and len(e.args) == nargs and not any(isinstance(x, ast.Starred) for x in e.args)
+
+
+def scalar_to_bytes_of(e, st):
+    """`G.scalar_to_bytes(X)` -> X"""
+    if plain_call(e, 1) and isinstance(e.func, ast.Attribute) and e.func.attr == "scalar_to_bytes" and is_group(e.func.value, st):
+        return e.args[0]
+    return None
+
+
+def hash_atom(e, st):
+    if "self" in st.locals:
+        return None
+    if plain_call(e, 0) and isinstance(e.func, ast.Attribute) and e.func.attr == "to_bytes":
+        v = e.func.value
+        if (plain_call(v, 1) and isinstance(v.func, ast.Attribute) and v.func.attr == "arbitrary_element"
+                and is_group(v.func.value, st) and is_empty_bytes(v.args[0])):
+            if "arb_empty" not in st.effects:
+                st.effects.append("arb_empty")
+            return "arb_empty"
+        if isinstance(v, ast.Attribute) and v.attr in ("M", "N", "S") and is_self_attr(v.value, "params"):
+            return v.attr
+    x = scalar_to_bytes_of(e, st)
+    if (x is not None and plain_call(x, 1) and isinstance(x.func, ast.Attribute) and x.func.attr == "password_to_scalar"
+            and is_group(x.func.value, st) and is_empty_bytes(x.args[0])):
+        if "scalar_enc" not in st.effects:
+            st.effects.append("scalar_enc")
+        return "scalar_enc"
+    return None
+
+
+def gen_proto():
+    src, mod, h = read("spake2.py")
+    pm = ProtoMod(mod, "spake2.py")
+    out = [PROTO_HEADER]
+
+    # (a) the two transcript functions
+    for pyname, lean, n in (("finalize_SPAKE2", "finalize_asym", 6), ("finalize_SPAKE2_symmetric", "finalize_sym", 5)):
+        fn = plain_function(pm, pyname, n)
+        st = PSt(pm, "spake2.py:" + pyname, "pure")
+        params = [a.arg for a in fn.args.args]
+        for p in params:
+            st.locals[p] = "bytes"
+        body = pblock(fn.body, st, 2, lambda v, s: bexpr(v, s))
+        out.append("/-- translated from `%s` -/\ndef %s (%s : Bytes) : Bytes :=\n%s\n" % (
+            pyname, lean, " ".join(pname(p, st, fn) for p in params), "\n".join(body)))
+
+    # the side each class is on
+    sides = {k: pm.class_side(c) for k, c in (("A", "SPAKE2_A"), ("B", "SPAKE2_B"), ("S", "SPAKE2_Symmetric"))}
+    for k in "ABS":
+        out.append("/-- `%s.side` -/\ndef class_side_%s : Bytes := %s\n" % ({"A": "SPAKE2_A", "B": "SPAKE2_B", "S": "SPAKE2_Symmetric"}[k], k, sides[k]))
+
+    # (b) the pieces hashed by hash_params
+    def hash_ret(v, st):
+        if not (plain_call(v, 0) and isinstance(v.func, ast.Attribute) and v.func.attr == "hexdigest"
+                and plain_call(v.func.value, 1) and isinstance(v.func.value.func, ast.Name) and v.func.value.func.id == "sha256"
+                and "sha256" not in st.locals and pm.is_std("sha256", "hashlib")):
+            die(st.where, v, "hash_params does not end in `return sha256(<bytes>).hexdigest()`")
+        arg = v.func.value.args[0]
+        if (plain_call(arg, 1) and isinstance(arg.func, ast.Attribute) and arg.func.attr == "join"
+                and isinstance(arg.func.value, ast.Constant) and arg.func.value.value == b""):
+            return lexpr(arg.args[0], st)
+        return "[%s]" % bexpr(arg, st)
+    for lean, classes in (("asym", ["SPAKE2_A", "SPAKE2_B"]), ("sym", ["SPAKE2_Symmetric"])):
+        c, fn = pm.method(classes, "hash_params", 0)
+        st = PSt(pm, "spake2.py:%s.hash_params" % c.name, "hash")
+        st.atom = hash_atom
+        body = pblock(fn.body, st, 2, hash_ret)
+        out.append("/-- the pieces `%s.hash_params` (used by %s) joins and hashes: `sha256(b\"\".join(<this>)).hexdigest()` -/\n"
+                   "def hash_pieces_%s (arb_empty scalar_enc M N S : Bytes) : List Bytes :=\n%s\n" % (c.name, ", ".join(classes), lean, "\n".join(body)))
+        out.append("/-- the fallible group operations of that method, in evaluation order -/\ndef hash_effects_%s : List String := %s\n" % (
+            lean, json.dumps(st.effects)))
+
+    # (c) the state dictionary
+    def dval(e, st):
+        if plain_call(e, 0) and is_self_attr(e.func, "hash_params"):
+            return "hash_params"
+        if (plain_call(e, 1) and isinstance(e.func, ast.Attribute) and e.func.attr == "decode"
+                and isinstance(e.args[0], ast.Constant) and e.args[0].value == "ascii"):
+            v = e.func.value
+            if is_self_attr(v, "side"):
+                return "side"
+            if (plain_call(v, 1) and isinstance(v.func, ast.Name) and v.func.id == "hexlify" and "hexlify" not in st.locals
+                    and pm.is_std("hexlify", "binascii")):
+                x = v.args[0]
+                for attr, nm in (("idA", "idA"), ("idB", "idB"), ("idSymmetric", "idS"), ("pw", "pw")):
+                    if is_self_attr(x, attr):
+                        return "hex " + nm
+                sc = scalar_to_bytes_of(x, st)
+                if sc is not None and is_self_attr(sc, "xy_scalar"):
+                    return "hex scalar"
+        inl = pm.inline(e, st)
+        if inl is not None:
+            r = dval(inl, st)
+            st.depth -= 1
+            return r
+        die(st.where, e, "dictionary value `%s` is not one of the recognised fields" % ast.unparse(e)[:60])
+
+    def dict_pairs(e, st):
+        if isinstance(e, ast.Dict):
+            if any(not (isinstance(k, ast.Constant) and isinstance(k.value, str)) for k in e.keys):
+                die(st.where, e, "dictionary key that is not a string literal")
+            pairs = [(k.value, v) for k, v in zip(e.keys, e.values)]
+        elif (isinstance(e, ast.Call) and isinstance(e.func, ast.Name) and e.func.id == "dict" and not e.args
+              and "dict" not in st.locals and pm.bindings.get("dict", 0) == 0 and all(k.arg is not None for k in e.keywords)):
+            pairs = [(k.arg, k.value) for k in e.keywords]
+        else:
+            die(st.where, e, "`%s` is not a dictionary display" % ast.unparse(e)[:40])
+        keys = [k for k, _ in pairs]
+        if len(set(keys)) != len(keys) or any(not re.match(r"^[A-Za-z0-9_ .-]*$", k) for k in keys):
+            die(st.where, e, "duplicate or unusual dictionary key")
+        return [(k, dval(v, st)) for k, v in pairs]
+    for lean, classes in (("asym", ["SPAKE2_A", "SPAKE2_B"]), ("sym", ["SPAKE2_Symmetric"])):
+        c, fn = pm.method(classes, "_serialize_to_dict", 0)
+        st = PSt(pm, "spake2.py:%s._serialize_to_dict" % c.name, "hash")
+        body = [s for s in fn.body if not is_doc(s)]
+        while (body and isinstance(body[0], ast.Assign) and len(body[0].targets) == 1 and isinstance(body[0].targets[0], ast.Name)
+               and ast.unparse(body[0].value) == "self.params.group" and body[0].targets[0].id != "self"):
+            st.locals[body[0].targets[0].id] = "group"
+            body = body[1:]
+        if len(body) == 1 and isinstance(body[0], ast.Return) and body[0].value is not None:
+            pairs = dict_pairs(body[0].value, st)
+        elif (len(body) == 2 and isinstance(body[0], ast.Assign) and len(body[0].targets) == 1 and isinstance(body[0].targets[0], ast.Name)
+              and body[0].targets[0].id not in st.locals and body[0].targets[0].id != "self"
+              and isinstance(body[1], ast.Return) and isinstance(body[1].value, ast.Name) and body[1].value.id == body[0].targets[0].id):
+            pairs = dict_pairs(body[0].value, st)
+        else:
+            die(st.where, fn, "_serialize_to_dict is not `[g = self.params.group;] d = {...}; return d`")
+        out.append("/-- the members of the dictionary built by `%s._serialize_to_dict` (used by %s), in order: (key, field) -/\n"
+                   "def dict_keys_%s : List (String × String) :=\n  [%s]\n" % (
+                       c.name, ", ".join(classes), lean, ", ".join("(%s, %s)" % (json.dumps(k), json.dumps(v)) for k, v in pairs)))
+
+    # (d) the side checks
+    for lean, classes, side in (("asym", ["SPAKE2_A", "SPAKE2_B"], "selfSide"), ("sym", ["SPAKE2_Symmetric"], sides["S"])):
+        c, fn = pm.method(classes, "_extract_message", 1)
+        st = PSt(pm, "spake2.py:%s._extract_message" % c.name, "R")
+        p = fn.args.args[1].arg
+        st.locals[p] = "bytes"
+        st.atom = (lambda sd: lambda e, s: sd if (is_self_attr(e, "side") and "self" not in s.locals) else None)(side)
+        body = pblock(fn.body, st, 2, lambda v, s: ".ok %s" % bexpr(v, s))
+        out.append("/-- translated from `%s._extract_message` (used by %s)%s -/\ndef extract_%s %s(%s : Bytes) : R Bytes :=\n%s\n" % (
+            c.name, ", ".join(classes), "; `selfSide` is `self.side`" if lean == "asym" else "; `self.side` is the class constant",
+            lean, "(selfSide : Bytes) " if lean == "asym" else "", pname(p, st, fn), "\n".join(body)))
+    out.append("end Spake2Model.Gen.Proto\n")
+    return "\n".join(out), h
+
+
 def write_if_changed(path, txt):
     old = open(path).read() if os.path.exists(path) else None
     if old != txt:
@@ -1099,7 +1646,8 @@ def write_if_changed(path, txt):
 
 def main():
     report = {"ok": True, "files": {}, "errors": [], "changed": []}
-    jobs = [("Ed25519Arith.lean", gen_ed25519), ("IntGroupArith.lean", gen_intgroup), ("UtilArith.lean", gen_util), ("Consts.lean", gen_consts)]
+    jobs = [("Ed25519Arith.lean", gen_ed25519), ("IntGroupArith.lean", gen_intgroup), ("UtilArith.lean", gen_util), ("Consts.lean", gen_consts),
+            ("ProtoShape.lean", gen_proto)]
     for fname, job in jobs:
         try:
             txt, h = job()
